@@ -96,3 +96,93 @@ Proof.
   exists [Transfer 1 true; CrashT 2 true 5; Transfer 2 false]. vm_compute. auto.
 Qed.
 Print Assumptions C21_unrouted_refuted.
+
+(* ================= second round: byte-level two writers, codegen ================= *)
+From PV Require Import Proofs.C21_overlay Proofs.C21_codegen.
+
+(* Two saves into one file at byte level (Model Part 3: open "wb" truncates, own offsets, zero-filled
+   gaps), ANY two option sets, ANY interleaving of opens and writes, also cut short anywhere (crash),
+   and a caller with ANY options that loads at ANY point: it gets the model of the current sources for
+   its own options or it recompiles; it never accepts a mixture.
+   ASSUMPTION (whole): every write call delivers the writer's whole stream — true of pickle.dump into
+   a buffered file while the pickle fits one frame (< 64 KiB); checked on the real code by tie W. *)
+Theorem C21_two_writers_single_write (t : tables) (h : list op) (oa ob : nat) (evs : list ev)
+        (o : nat) (e : bool) (bx : exc) :
+  routes_ok t = true ->
+  let w := world_after t w0 h in
+  forallb (whole (stream w oa) (stream w ob)) evs = true ->
+  match load_gen t (ov_world w oa ob evs) o e bx with
+  | inr m => m = (src w, o)
+  | inl x => transfer_recompiles t x = true
+  end.
+Proof.
+  intros Hr w Hw. exact (single_chunk_reader t w oa ob evs o e bx Hr (Inv_after t h Hr w0 Inv_w0) Hw).
+Qed.
+Print Assumptions C21_two_writers_single_write.
+
+(* several write calls per save, SAME stream: the later opener has written p bytes, the earlier writer
+   continues beyond the gap.  If p is a position where the decoder expects an opcode (write calls end at
+   frame boundaries), the zero byte there is a format error whatever follows: the reader recompiles. *)
+Theorem C21_hole_at_opcode_boundary (s : list byte) (p : nat) (rest : list byte) :
+  boundary s p = true -> decode (firstn p s ++ 0 :: rest) = Bad.
+Proof. exact (hole_is_bad s p rest). Qed.
+Print Assumptions C21_hole_at_opcode_boundary.
+
+(* _partial: that every intermediate file of a chunked same-stream interleaving is either a prefix of
+   the stream or of this shape is derived from write_at only for the three-phase schedules over the
+   model's stream (finite sweep C21_phase3_shape_sweep below), not for arbitrary schedules. *)
+Theorem C21_torn_same_stream_partial (t : tables) (h : list op) (o' p : nat) (rest : list byte) (o : nat) (e : bool) :
+  routes_ok t = true ->
+  let w := world_after t w0 h in
+  boundary (stream w o') p = true ->
+  match load_gen t (set_cfile w (Some (firstn p (stream w o') ++ 0 :: rest, clock w))) o e UnpicklingError with
+  | inr m => m = (src w, o)
+  | inl x => transfer_recompiles t x = true
+  end.
+Proof. intros Hr w Hb. exact (hole_reader t w o' p rest o e Hr Hb). Qed.
+Print Assumptions C21_torn_same_stream_partial.
+
+(* finite sweep (28^3 schedules of ONE stream): the file after [OpenA; WriteA a0; OpenB; WriteB b; WriteA (a-a0)]
+   computed with write_at is mask: a prefix, or prefix ++ zeros ++ later chunk *)
+Example C21_phase3_shape_sweep :
+  let s := dump (db_of 3 5 7) in
+  forallb (fun a0 => forallb (fun b => forallb (fun a =>
+    match ofile (ov_run s s (ov0 None) (phase3 a0 b a)) with
+    | Some f => if list_eq_dec Nat.eq_dec f (mask s a0 b (Nat.max a a0)) then true else false
+    | None => false end) (seq 0 29)) (seq 0 29)) (seq 0 29) = true.
+Proof. vm_compute. reflexivity. Qed.
+Print Assumptions C21_phase3_shape_sweep.
+
+(* without the alignment assumption the statement is false even for the SAME stream: the gap covers a
+   payload byte, the file decodes, and a stale model id is served *)
+Theorem C21_torn_unaligned_refuted :
+  let w := W 5 0 0 0 None in
+  load_gen tbl_fixed (ov_world w 1 1 [OpenA; WriteA 23; OpenB; WriteB 22; WriteA 5]) 1 true UnpicklingError = inr (0, 1).
+Proof. vm_compute. reflexivity. Qed.
+Print Assumptions C21_torn_unaligned_refuted.
+
+(* and for two DIFFERENT option sets with several write calls a mixture is accepted: header (options 2)
+   from one stream, functions (options 1) from the other; the caller asking for options 2 gets model 1 *)
+Theorem C21_mixture_refuted :
+  let w := W 5 0 0 0 None in
+  load_gen tbl_fixed (ov_world w 1 2 [OpenA; WriteA 20; OpenB; WriteB 20; WriteA 8]) 2 true UnpicklingError = inr (5, 1).
+Proof. vm_compute. reflexivity. Qed.
+Print Assumptions C21_mixture_refuted.
+
+(* codegen mode (Model Part 4), step order since ee3ded2 = remove cache file; four libraries;
+   create/truncate; bytes: for every history of edits, version changes, transfers and transfers killed
+   after ANY number of these steps, every transfer that returns yields four libraries that are all
+   compiled from the current sources for the requested options, or recompiles; none raises.
+   The side condition "remove first" is extracted from save_model on every run (tie). *)
+Theorem C21_crash_codegen (t : tables) (h : list cop) :
+  routes_ok t = true -> cg_all_good t cw0 h.
+Proof. intros Hr. exact (cg_all_good_from t h Hr cw0 CInv_cw0). Qed.
+Print Assumptions C21_crash_codegen.
+
+(* the order before ee3ded2 (libraries first, cache file untouched until the end) is refuted: a write for
+   options 2 killed after the four libraries leaves the complete cache file of options 1 next to them *)
+Theorem C21_codegen_old_order_refuted :
+  exists h, In [CLoaded (all4 (0, 2))] (cg_run false tbl_fixed cw0 h) /\
+            last h CEdit = CTransfer 1 true.
+Proof. exists [CTransfer 1 true; CCrashT 2 true 4; CTransfer 1 true]. vm_compute. auto. Qed.
+Print Assumptions C21_codegen_old_order_refuted.
